@@ -7,9 +7,10 @@ is not modelled (see notes/C15.md): for the parser proper the harness `vh-c15` i
 theorems below are what bounds the recursion that oracle has to survive.
 -/
 import AndaVerif.Proofs.KipLex
+import AndaVerif.Proofs.KipClassify
 
 namespace AndaVerif.Props.C15
-open AndaVerif.Model.KipLex AndaVerif.Proofs.KipLex
+open AndaVerif.Model.KipLex AndaVerif.Proofs.KipLex AndaVerif.Proofs.KipClassify
 open AndaVerif.Gen.KipLimits
 
 /-! ## The generated tables are the ones the model was written for -/
@@ -158,5 +159,116 @@ theorem budget_prefix_refusal (d : Nat) (a b : List Char) (e : BudgetErr)
 /-- The byte length is between one and four times the number of characters. -/
 theorem budget_length_bounds (s : List Char) : s.length ≤ utf8Len s ∧ utf8Len s ≤ 4 * s.length :=
   utf8Len_bounds s
+
+/-! ## classify — the family is decided by the text alone
+
+`classify` is the first step of every family's parser (`ws(word(HEAD))`): if `parse_kip` returns a
+command of family `F`, or `parse_F` accepts, the text starts — after trivia — with a head keyword of
+`F` at a word boundary (this link is the correspondence check of `vh-c15`). -/
+
+/-- No head keyword of the current source folds to a prefix of another one, none occurs twice; the
+extra boundary characters and the `alt` order are the ones the model was written for. -/
+theorem gen_heads_prefix_free :
+    prefixFree headTable = true ∧ boundaryExtra = ['_', '?', '"'] ∧ kipAltOrder = ["kql", "kml", "meta"] := by
+  decide
+
+/-- Keyword case: any ASCII re-casing of the text (of any of its letters) leaves the family unchanged. -/
+theorem classify_invariant_case (uni : Char → Bool) (s t : List Char)
+    (h : s.map foldNat = t.map foldNat) : classify uni s = classify uni t := by
+  unfold classify
+  exact classifyIn_case uni headTable _ _ (skip_case s t h).1
+
+/-- Leading trivia (whitespace, complete `//` comments with anything inside) leaves it unchanged. -/
+theorem classify_invariant_trivia (uni : Char → Bool) (t s : List Char) (ht : Trivia t) :
+    classify uni (t ++ s) = classify uni s := by
+  unfold classify
+  rw [skipTrivia_trivia ht]
+
+/-- At most one head keyword matches a text, whatever follows it. -/
+theorem classify_exclusive (uni : Char → Bool) (s : List Char) (e1 e2 : Family × List Char)
+    (m1 : e1 ∈ headTable) (m2 : e2 ∈ headTable)
+    (h1 : matchWord uni e1.2 s = true) (h2 : matchWord uni e2.2 s = true) : e1 = e2 :=
+  unique_match uni headTable gen_heads_prefix_free.1 s m1 m2 h1 h2
+
+/-- … so the order in which `parse_kip`'s `alt` tries the three families cannot matter. -/
+theorem classify_alt_order_irrelevant (uni : Char → Bool) (tbl' : List (Family × List Char))
+    (hperm : tbl'.Perm headTable) (s : List Char) :
+    classifyIn uni tbl' (skipTrivia s) = classify uni s :=
+  classifyIn_perm uni headTable tbl' gen_heads_prefix_free.1 hperm _
+
+/-- A head keyword, in any case, after any trivia, followed by trivia or the end of the text, gives
+its family — whatever comes next (the rest of the grammar cannot change the family). -/
+theorem classify_head (uni : Char → Bool) (huni : ∀ c, isWhitespace c = true → uni c = false)
+    (e : Family × List Char) (me : e ∈ headTable) (pre kw t rest : List Char)
+    (hkw : kw.map foldNat = e.2.map foldNat) (hpre : Trivia pre) (ht : Trivia t)
+    (hsep : t ≠ [] ∨ rest = []) : classify uni (pre ++ (kw ++ (t ++ rest))) = some e.1 := by
+  rw [classify_invariant_trivia uni pre _ hpre]
+  have hcase : (kw ++ (t ++ rest)).map foldNat = (e.2 ++ (t ++ rest)).map foldNat := by
+    simp [hkw]
+  rw [classify_invariant_case uni _ _ hcase]
+  -- the keyword itself matches, and what follows is a boundary
+  have hmk : ∀ (k x : List Char), matchKeyword k (k ++ x) = some x := by
+    intro k x; induction k with
+    | nil => rfl
+    | cons a as ih => simp [matchKeyword, ih]
+  have hb : wordBoundary uni (t ++ rest) = true := by
+    cases ht with
+    | nil =>
+      rcases hsep with h | h
+      · exact absurd rfl h
+      · subst h; rfl
+    | ws c t' hc _ =>
+      have h1 : isAlnum uni c = false := by
+        unfold isAlnum
+        by_cases hlt : c.toNat < 0x80
+        · simp only [hlt, if_true]
+          simp only [isWhitespace, Bool.or_eq_true, Bool.and_eq_true, decide_eq_true_eq, beq_iff_eq] at hc
+          simp only [isAsciiAlnum, Bool.or_eq_false_iff, Bool.and_eq_false_iff, decide_eq_false_iff_not]
+          omega
+        · simp only [hlt, if_false]; exact huni c hc
+      have h2 : (c == '_') = false ∧ (c == '?') = false ∧ (c == '"') = false := by
+        refine ⟨?_, ?_, ?_⟩ <;>
+          (simp only [beq_eq_false_iff_ne, ne_eq]; intro he; subst he; revert hc; decide)
+      simp [wordBoundary, h1, h2]
+    | comment body t' _ _ =>
+      have : isAlnum uni '/' = false := by
+        unfold isAlnum; rw [if_pos (by decide)]; decide
+      simp [wordBoundary, this]
+  have hm : matchWord uni e.2 (e.2 ++ (t ++ rest)) = true := by
+    unfold matchWord; rw [hmk]; exact hb
+  -- the trivia skipper leaves a text that starts with a letter alone
+  have hletters : ∀ x ∈ headTable, ∀ y, skipTrivia (x.2 ++ y) = x.2 ++ y := by
+    intro x hx y
+    have hall : headTable.all (fun x => match x.2 with
+        | c :: _ => !isWhitespace c && !(c == '/')
+        | [] => false) = true := by decide
+    have hx' := List.all_eq_true.mp hall x hx
+    obtain ⟨c, cs, hx2, hw, hs⟩ : ∃ c cs, x.2 = c :: cs ∧ isWhitespace c = false ∧ (c == '/') = false := by
+      cases hx2 : x.2 with
+      | nil => rw [hx2] at hx'; cases hx'
+      | cons c cs =>
+        rw [hx2] at hx'
+        simp only [Bool.and_eq_true, Bool.not_eq_true'] at hx'
+        exact ⟨c, cs, rfl, hx'.1, hx'.2⟩
+    rw [hx2, List.cons_append, skipTrivia_cons, hw, hs]; simp
+  unfold classify
+  rw [hletters e me]
+  unfold classifyIn
+  cases hf : headTable.find? (fun x => matchWord uni x.2 (e.2 ++ (t ++ rest))) with
+  | none => exact absurd hm (List.find?_eq_none.mp hf e me)
+  | some e' =>
+    have hp : matchWord uni e'.2 (e.2 ++ (t ++ rest)) = true := by
+      have := List.find?_some hf
+      simpa using this
+    have := classify_exclusive uni _ e' e (List.mem_of_find?_eq_some hf) me hp hm
+    rw [this]
+
+example : classify (fun _ => false) "  // a \" ( comment\n\tfInD(?x) WHERE {}".toList = some .kql := by decide
+example : classify (fun _ => false) "FINDX(?x)".toList = none := by decide
+example : classify (fun _ => false) "set?x".toList = none := by decide
+example : classify (fun c => c == 'é') "FINDé".toList = none ∧
+          classify (fun _ => false) "FIND (".toList = some .kql := by decide
+example : Trivia " //x\n\t".toList :=
+  .ws ' ' _ (by decide) (.comment ['x'] _ (by decide) (.ws '\t' _ (by decide) .nil))
 
 end AndaVerif.Props.C15
